@@ -12,6 +12,9 @@ func TestMain(m *testing.M) {
 	case "c15":
 		childMainC15()
 		os.Exit(0)
+	case "c13":
+		childMainC13()
+		os.Exit(0)
 	}
 	// server handlers and some commands log through the standard logger
 	if os.Getenv("VERIF_KEEP_LOG") == "" {
